@@ -84,10 +84,12 @@ class TridonicGW:
     def reset(self):
         self.pending = []       # reports not yet delivered on channel 0
         self.observe = []       # foreign-traffic reports (channel 1), filled by scenarios
+        self.inits = getattr(self, "inits", [])
 
     def on_write(self, data):
         cmd = data[0]
         if cmd == 0x01:
+            self.inits.append(data[1])
             if data[1] == 0x00:
                 self.pending.append(bytes([0x01, 0, 0, 2, 5]) + bytes(59))
             elif data[1] == 0x02:
